@@ -14,7 +14,7 @@ From Coq Require Import NArith ZArith List Bool.
 From MZ.lib Require Import Mach.
 From MZ.model Require Import InflateCore InflateStream.
 From MZ.spec Require Import Adler Zlib.
-From MZ.proofs Require Import Protocol InflateStreamCounts StoredSpec InflateStoredStream InflateStreamProgress.
+From MZ.proofs Require Import Protocol InflateStreamCounts StoredSpec InflateStoredStream InflateStreamProgress InflateStoredFinishTruncated.
 Import ListNotations.
 Local Open Scope N_scope.
 
@@ -127,6 +127,29 @@ Qed.
 Example C13_ok_with_progress :
   match inflate (is_new FZlib) [120; 1; 0; 3] 10 0 with
   | Ret r => sr_code r = MZ_OK /\ sr_in r = 4%N
+  | _ => False
+  end.
+Proof. vm_compute. split; reflexivity. Qed.
+
+(* "a finish request on a truncated stream is a buffer error", on streams of stored blocks: Finish on a fresh object
+   with a stream cut anywhere inside it (what is withheld is longer than what follows the stream) reports MZ_ERR_BUF,
+   whatever the output length; what it handed out is a prefix of the plaintext *)
+Theorem C13_finish_on_truncated_stored_stream_is_buffer_error_partial :
+  forall fmt cmf flg A chunks last extra input fut out_len,
+  cmf < 256 -> flg < 256 -> valid_header (Z.of_N cmf) (Z.of_N flg) = true -> A < 2 ^ 32 ->
+  chunks_ok chunks -> bytes_ok last -> N.of_nat (length last) <= 65535 ->
+  let zl := zl_of fmt in
+  let stream := (if zl then [cmf; flg] else []) ++ stored_stream chunks last ++ (if zl then be32 A else []) in
+  input ++ fut = stream ++ extra -> N.of_nat (length extra) < N.of_nat (length fut) ->
+  out_len <= USIZE_MAX -> N.of_nat (length input) < 2 ^ 57 ->
+  exists r, inflate (is_new fmt) input out_len FL_FINISH = Ret r /\ sr_code r = MZ_ERR_BUF /\
+            sr_in r <= N.of_nat (length input) /\
+            sr_out r = firstn (length (sr_out r)) (concat chunks ++ last).
+Proof. exact inflate_finish_truncated. Qed.
+
+Example C13_finish_truncated :
+  match inflate (is_new FZlib) [120; 1; 1; 3; 0; 252; 255; 7; 8] 10 FL_FINISH with
+  | Ret r => sr_code r = MZ_ERR_BUF /\ sr_out r = [7; 8]
   | _ => False
   end.
 Proof. vm_compute. split; reflexivity. Qed.
